@@ -31,7 +31,7 @@ CLAIM = {
             "counterparty_selected_contest_delay (not crossed); (R9.5) the sighash flags under which the supplied and "
             "the recomposed second-level transaction are compared (and signed) are one value chosen by the channel "
             "type alone: SIGHASH_ALL unless setup.is_anchors(), so on a non-anchor channel every input and output of "
-            "the supplied transaction is covered by the comparison. The "
+            "the supplied transaction is covered by the comparison. (R9.6) refusals are real refusals under every filter configuration: PolicyFilter::filter lets the first matching rule decide with that rule's own action and defaults to Error, and a policy error becomes Ok only when the filter says Warn (same obligations as C05 R5.4). The "
             "parameter-only HTLC request is out of scope by the property's text.",
     "note": "non-permissive policy; LockTime::is_satisfied_by / build_htlc_transaction / script parsers trusted by name",
     "technique": "static analysis: loop-iteration must-pass + must-pass-through + provenance (argument roles) + guard scenarios",
@@ -46,6 +46,7 @@ def run(ctx):
     r93(ctx)
     r94(ctx)
     r95(ctx)
+    r_filter(ctx)
 
 
 def r91(ctx):
@@ -387,3 +388,11 @@ def r95(ctx):
     ctx.ob("R9.5", len(roots) == 1 and None not in roots, f"{vb.name}/sighash-type/one-value",
            "the supplied and the recomposed transaction are hashed with different sighash-type values",
            where=f"{vb.file}:{vb.line}", sample="one sighash_type local for both hashes")
+
+
+def r_filter(ctx):
+    """every guard of this property refuses through policy_err!; which tags are demoted to warnings is decided by
+    PolicyFilter::filter.  Same obligations as C05 R5.4 (first matching rule decides with its own action, default Error,
+    Err unless Warn), evaluated here because an operator's `error` pin on this property's tags depends on them."""
+    from rules import C05 as _c05
+    _c05.r54(ctx, rid="R9.6")
